@@ -64,6 +64,8 @@ fn dispatch(name: &'static str, ctx: &str) {
 }
 
 struct EnvSpec {
+    // file that receives one line "<pid> <unix_micros> <point>" per hook hit (RIP_VERIF_TRACE)
+    trace: Option<std::path::PathBuf>,
     // point name (or prefix ending in '*') -> microseconds
     delays: Vec<(String, u64)>,
     // point name -> n-th hit (1-based) at which the process aborts
@@ -84,12 +86,14 @@ fn matches(pattern: &str, name: &str) -> bool {
 fn init_from_env() -> bool {
     let delay = std::env::var("RIP_VERIF_DELAY").unwrap_or_default();
     let abort = std::env::var("RIP_VERIF_ABORT").unwrap_or_default();
-    if delay.trim().is_empty() && abort.trim().is_empty() {
+    let trace = std::env::var("RIP_VERIF_TRACE").unwrap_or_default();
+    if delay.trim().is_empty() && abort.trim().is_empty() && trace.trim().is_empty() {
         // Do not override a handler installed concurrently.
         let _ = STATE.compare_exchange(0, 1, Ordering::SeqCst, Ordering::SeqCst);
         return STATE.load(Ordering::SeqCst) == 2;
     }
     let mut spec = EnvSpec {
+        trace: (!trace.trim().is_empty()).then(|| std::path::PathBuf::from(trace.trim())),
         delays: Vec::new(),
         aborts: Vec::new(),
         hits: Mutex::new(std::collections::HashMap::new()),
@@ -122,6 +126,17 @@ fn env_handler(name: &'static str, _ctx: &str) {
     let Some(spec) = ENV_SPEC.get() else {
         return;
     };
+    if let Some(path) = &spec.trace {
+        use std::io::Write;
+        let micros = std::time::SystemTime::now()
+            .duration_since(std::time::UNIX_EPOCH)
+            .map(|d| d.as_micros())
+            .unwrap_or(0);
+        if let Ok(mut file) = std::fs::OpenOptions::new().create(true).append(true).open(path) {
+            // one short O_APPEND write per line: lines of different processes do not interleave
+            let _ = file.write_all(format!("{} {} {}\n", std::process::id(), micros, name).as_bytes());
+        }
+    }
     for (pattern, nth) in &spec.aborts {
         if matches(pattern, name) {
             let mut hits = spec.hits.lock().unwrap_or_else(|e| e.into_inner());
